@@ -281,6 +281,9 @@ func c13Bound(c c13Case) time.Duration {
 	if b == 0 {
 		b = 3 * time.Second
 	}
+	if c13Stalls >= 1 && b > 2*time.Second {
+		b = 2 * time.Second // something already stalled in this process
+	}
 	if c13Stalls >= 3 && b > 300*time.Millisecond {
 		b = 300 * time.Millisecond // several stalls already recorded: keep the run short
 	}
